@@ -1,7 +1,8 @@
 (* Props/C03.v -- property C03: saved files are valid PDF for a strict third-party reader.
    Statements only; proofs live in Proofs/StrictReaderProofs.v (about the specification reader)
    and Proofs/SaveStrictProofs.v (about the model of the writer, Model/Save.v). *)
-From LV Require Import Base.Bytes Model.Obj Spec.StrictReader Proofs.StrictReaderProofs.
+From LV Require Import Base.Bytes Base.Sx Model.Obj Model.Writer Model.Save Proofs.SaveProofs
+  Spec.StrictReader Proofs.StrictReaderProofs Proofs.SaveStrictProofs.
 
 Local Open Scope N_scope.
 
@@ -95,7 +96,107 @@ Theorem C03_example_accepts :
             s_startxref d = 39.
 Proof. eexists. split; [vm_compute; reflexivity|]. split; vm_compute; reflexivity. Qed.
 
-(* placeholder: part 2 (theorems about Model/Save.v) is added below when proved *)
+(* ------------------------------------------------------------------------------------------ *)
+(* Part 2: the writer model (Model/Save.v, Model/Writer.v: written from src/writer.rs and       *)
+(* src/xref.rs, tied to the crate byte for byte by ./check C01) against the strict reader.      *)
+(* Claim-ladder rung 1 of DESIGN.md section 9 for C03.                                          *)
+(* ------------------------------------------------------------------------------------------ *)
+
+(* (2.1) every table entry the writer prints (offset < 2^32, generation < 2^16) is accepted by
+   the strict 20-byte entry parser and decodes to the same offset / generation / kind *)
+Theorem C03_save_entry_20 :
+  forall e r, xentry_in_range e -> p_entry (write_xref_entry e ++ r) = Some (xent_of e, r).
+Proof. exact save_entry_accepted. Qed.
+
+(* (2.2) the body of a subsection: exactly count entries, numbered from the first id *)
+Theorem C03_save_subsection_entries :
+  forall es id r, Forall xentry_in_range es ->
+    p_entries (length es) id (flat_map write_xref_entry es ++ r) = Some (number_from id es, r).
+Proof. exact save_entries_accepted. Qed.
+
+(* (2.3) startxref: in every successfully saved file (both formats) the strict reader, reading from
+   the END of the file, finds the length of the body, and at exactly that offset stands the keyword
+   xref (table) or the header "max_id+1 0 obj" of the cross-reference stream *)
+Theorem C03_save_startxref_exact :
+  forall xt d,
+    so_status (save xt d) = SaveOk ->
+    find_tail (so_bytes (save xt d)) = Some (blen (body_of d)) /\
+    match xt with
+    | XTable => exists rest, strip KW_xref (at_off (so_bytes (save xt d)) (blen (body_of d))) = Some rest
+    | XStream => exists rest, p_objhdr (at_off (so_bytes (save xt d)) (blen (body_of d))) =
+                              Some (d_max_id d + 1, 0, rest)
+    end.
+Proof. exact save_startxref_exact. Qed.
+
+(* the startxref..%%EOF marker is also accepted read forwards, with the same number *)
+Theorem C03_save_tail_forward :
+  forall xs rest, p_tail (bs "startxref" ++ x0a :: N_dec xs ++ x0a :: bs "%%EOF" ++ rest) = Some (xs, rest).
+Proof. exact save_tail_accepted. Qed.
+
+(* (2.4) offsets: every entry the writer records holds the exact offset of "id gen obj" with the
+   same id and gen AS THE STRICT READER RECOGNISES IT, in the complete file, both formats.
+   Hypothesis: the body is at most 2^32 bytes (the writer keeps offsets in a u32; beyond that the
+   `as u32` truncation makes the property false and it is excluded by the property's domain). *)
+Theorem C03_save_offsets_exact :
+  forall xt d id off g,
+    so_status (save xt d) = SaveOk ->
+    blen (body_of d) <= u32_mod ->
+    xget (xmap_of d) id = Some (XNormal off g) ->
+    exists rest, p_objhdr (at_off (so_bytes (save xt d)) off) = Some (id, g, rest) /\
+                 off < lenN (so_bytes (save xt d)).
+Proof. exact save_offsets_exact. Qed.
+
+(* ... and every object that is written (pairwise distinct object numbers) has such an entry *)
+Theorem C03_save_objects_all_listed :
+  forall xt d id g o,
+    so_status (save xt d) = SaveOk ->
+    blen (body_of d) <= u32_mod ->
+    NoDup (obj_numbers (d_objects d)) ->
+    In ((id, g), o) (d_objects d) -> skipped o = false ->
+    exists off rest, xget (xmap_of d) id = Some (XNormal off g) /\
+                     p_objhdr (at_off (so_bytes (save xt d)) off) = Some (id, g, rest).
+Proof. exact save_objects_all_listed. Qed.
+
+(* (2.5) stream Length.  PARTIAL: the hypothesis is the object-level round trip of the stream
+   DICTIONARY through the strict tokenizer (proved here for no class of dictionaries; it is what
+   the run-time tie checks on every generated object).  Given it, and Length = |content| (direct or
+   resolved), the strict reader takes exactly the saved content between "stream" LF and LF "endstream",
+   also when the content itself contains "endstream". *)
+Theorem C03_save_stream_length_partial :
+  forall resolve id d c rest,
+    p_object (write_dictionary d ++ stream_tail c rest) = Some (ODict d, stream_tail c rest) ->
+    length_value resolve d = Some (blen c) ->
+    p_objbody resolve id (x0a :: write_dictionary d ++ stream_tail c rest) = SOk (OStream d c, skip_sp rest).
+Proof. exact save_stream_length_exact. Qed.
+
+(* (2.6) the whole-file statement  strict_load (save x d) = SOk (sdoc_of d)  is NOT proved in general
+   (missing: object-level round trip of the strict tokenizer against Writer.write_object, the
+   composition of the pieces above through read_section / read_all, and the span arithmetic of the
+   tiling).  Concrete instances, both formats, by computation -- they also serve as non-vacuity of
+   the hypotheses of (2.3)-(2.5): *)
+Definition ex_doc : doc := {|
+  d_version := bs "1.5";
+  d_binary_mark := [xbb; xad; xc0; xde];
+  d_trailer := [(bs "Root", ORef 1 0)];
+  d_objects := [((1, 0), ODict [(bs "Type", OName (bs "Catalog"));
+                                (bs "K", OArr [OInt 1; ORef 3 0; OStr (bs "a(b") false; ONull; OStr [x00; xff] true])]);
+                ((3, 0), OStream [(bs "Length", OInt 19)] (bs "endstream" ++ [x0a] ++ bs "endobj" ++ [x0a; x0d; x25]));
+                ((7, 2), OInt (-5))]%N;
+  d_max_id := 8 |}.
+
+Theorem C03_example_table :
+  so_status (save XTable ex_doc) = SaveOk /\
+  exists s, strict_load (save_table ex_doc) = SOk s /\
+            s_objects s = d_objects ex_doc /\ s_version s = d_version ex_doc /\
+            s_trailer s = d_trailer (so_doc (save XTable ex_doc)) /\ s_stream s = false.
+Proof. split; [reflexivity|]. eexists. split; [vm_compute; reflexivity|]. repeat split; vm_compute; reflexivity. Qed.
+
+Theorem C03_example_stream :
+  so_status (save XStream ex_doc) = SaveOk /\
+  exists s, strict_load (save_stream ex_doc) = SOk s /\
+            s_objects s = d_objects ex_doc /\ s_version s = d_version ex_doc /\
+            s_trailer s = d_trailer (so_doc (save XStream ex_doc)) /\ s_stream s = true.
+Proof. split; [reflexivity|]. eexists. split; [vm_compute; reflexivity|]. repeat split; vm_compute; reflexivity. Qed.
 
 Print Assumptions C03_accept_sound.
 Print Assumptions C03_chain_covers.
@@ -105,3 +206,12 @@ Print Assumptions C03_subsection_exact.
 Print Assumptions C03_xref_stream_consistent.
 Print Assumptions C03_stream_lengths.
 Print Assumptions C03_example_accepts.
+Print Assumptions C03_save_entry_20.
+Print Assumptions C03_save_subsection_entries.
+Print Assumptions C03_save_startxref_exact.
+Print Assumptions C03_save_tail_forward.
+Print Assumptions C03_save_offsets_exact.
+Print Assumptions C03_save_objects_all_listed.
+Print Assumptions C03_save_stream_length_partial.
+Print Assumptions C03_example_table.
+Print Assumptions C03_example_stream.
